@@ -336,11 +336,9 @@ def text_variant(rnd, case):
         if arg and rnd.random() < 0.5:
             arg = arg.rstrip(";\n ")          # the argument need not end with a separator
     inp = x[i - ninp:i]
-    if any(ord(c) > 127 for c in arg + stdin):
-        # non-ASCII script text stays in the argument (the model of the stdin reader works on ASCII bytes)
-        arg, stdin, has, mode = arg + stdin, "", 1, "arg"
+    # the argument is a string (characters); the stream is BYTES: the debugger's stdin reader decodes UTF-8 itself (Utf8.v)
     a = [ord(c) for c in arg]
-    stream = [ord(c) for c in stdin] + inp
+    stream = list(stdin.encode("utf-8", errors="surrogatepass")) + inp
     nums = x[:i - ninp - 1] + [has, len(a)] + a + [len(stream)] + stream
     return "DBGS " + " ".join(f"{v:x}" for v in nums), mode
 
